@@ -30,6 +30,7 @@ static std::string te_value(bool with_chunked) {
 static std::string bad_host() {
     static const std::vector<std::string> b = {"a..b.example", ".example", "a$b.example", "ex ample", std::string(64, 'l') + ".example", "[::zz]", "[::1", "[::1]x", "[]", "h.example:0", "h.example:65536", "h.example:abc", "h.example:", "a_b%.example", "a^b.example", "a`b.example", "www.exam|ple.com", "-"};
     std::string h = rcx::pick(b);
+    if (rcx::chance(1, 12)) return "[" + std::string((size_t)rcx::range(44, 48), rcx::coin() ? 'a' : ':') + "]"; // bracketed literals around the size of the address buffer (46): never a valid address
     if (h == "-") { h.clear(); for (int i = 0; i < 30; i++) h += "abcdefgh."; h += "example"; } // > 255 bytes
     return h;
 }
